@@ -19,7 +19,8 @@ Lemma latency_delay_range lat jit draws :
     (if 0 <? jit then (lat - jit) * 1000000 <= d < (lat + jit) * 1000000 else d = lat * 1000000).
 Proof.
   intros Hl Hj. unfold latency_delay, latency_jitter_guard, latency_rand_n, latency_delay_ns, latency_base_ns.
-  unfold ms_ok in *.
+  unfold ms_ok in *. rewrite maxint_half.
+  replace (4611686018427387903 <? jit) with false by lia.
   destruct (0 <? jit) eqn:Hg.
   - rewrite (wrap64_id (jit * 2)) by (unfold two63; lia).
     replace (jit * 2 <=? 0) with false by lia.
